@@ -81,6 +81,51 @@ macro_rules! field_type {
             }
         }
 
+        // Decoys: inherent methods named like the trait methods the generated code calls on its fields, with
+        // compatible signatures.  Method-call syntax (`self.a.hash(state)`) would pick these instead of the trait's.
+        #[allow(clippy::should_implement_trait, dead_code, unused_variables)]
+        impl $name {
+            pub fn hash<HH: ::std::hash::Hasher>(&self, state: &mut HH) {
+                panic!("DECOY: inherent `hash` of a field type was called");
+            }
+
+            pub fn clone(&self) -> Self {
+                panic!("DECOY: inherent `clone` of a field type was called");
+            }
+
+            pub fn clone_from(&mut self, source: &Self) {
+                panic!("DECOY: inherent `clone_from` of a field type was called");
+            }
+
+            pub fn eq(&self, other: &Self) -> bool {
+                panic!("DECOY: inherent `eq` of a field type was called");
+            }
+
+            pub fn ne(&self, other: &Self) -> bool {
+                panic!("DECOY: inherent `ne` of a field type was called");
+            }
+
+            pub fn cmp(&self, other: &Self) -> ::std::cmp::Ordering {
+                panic!("DECOY: inherent `cmp` of a field type was called");
+            }
+
+            pub fn partial_cmp(&self, other: &Self) -> Option<::std::cmp::Ordering> {
+                panic!("DECOY: inherent `partial_cmp` of a field type was called");
+            }
+
+            pub fn fmt(&self, f: &mut fmt::Formatter<'_>) -> fmt::Result {
+                panic!("DECOY: inherent `fmt` of a field type was called");
+            }
+
+            pub fn default() -> Self {
+                panic!("DECOY: inherent `default` of a field type was called");
+            }
+
+            pub fn into<XX>(self) -> XX {
+                panic!("DECOY: inherent `into` of a field type was called");
+            }
+        }
+
         impl fmt::Debug for $name {
             fn fmt(&self, f: &mut fmt::Formatter<'_>) -> fmt::Result {
                 ev(format!("dbg:{}", self.id()));
